@@ -163,6 +163,30 @@ func b2i(b bool) int64 {
 	return 0
 }
 
+type keptResult struct {
+	z    interval.IntRange
+	snap [2]string
+	what string
+	set  bool
+}
+
+var (
+	kept                    keptResult
+	nOK                     int
+	histChanged, histShared int
+	histExample             string
+)
+
+func snapRange(r interval.IntRange) [2]string {
+	s := [2]string{"nil", "nil"}
+	for i := range r {
+		if r[i] != nil {
+			s[i] = r[i].String()
+		}
+	}
+	return s
+}
+
 // aliasCheck mutates the result's big.Ints and checks that the operands did
 // not change and share no pointer with the result.
 func aliasCheck(x, y, z interval.IntRange) bool {
@@ -368,6 +392,28 @@ func main() {
 					lifted++
 				}
 				z, ok := call(op, x, y)
+				// call history: a result that the caller keeps must not change when LATER calls are made, and must not
+				// share storage with a later result (every 7th successful result is kept until the next one replaces it)
+				if kept.set {
+					if snapRange(kept.z) != kept.snap {
+						histChanged++
+						if histExample == "" {
+							histExample = fmt.Sprintf("the kept result %v of %s became %v after later calls (last: %s on %v, %v)", kept.snap, kept.what, snapRange(kept.z), op, snapRange(x), snapRange(y))
+						}
+						kept.set = false
+					} else if ok {
+						for _, zp := range z {
+							for _, kp := range kept.z {
+								if zp != nil && zp == kp {
+									histShared++
+									if histExample == "" {
+										histExample = fmt.Sprintf("the result of %s on %v, %v shares a *big.Int with the kept result of %s", op, snapRange(x), snapRange(y), kept.what)
+									}
+								}
+							}
+						}
+					}
+				}
 				if pz, has := callPlain(op, xv.toRange(trX), yv.toRange(trY)); has {
 					if !ok || !pz.Eq(z) {
 						plainMismatch++
@@ -383,7 +429,21 @@ func main() {
 					if z[1] != nil {
 						zc[1] = new(big.Int).Set(z[1])
 					}
-					alias = aliasCheck(x, y, z)
+					nOK++
+					if nOK%7 == 0 {
+						// this result is kept as it is (no scribbling on it): its row's alias column only says whether it shares
+						// a pointer with its operands
+						kept = keptResult{z: z, snap: snapRange(z), what: fmt.Sprintf("%s on %v, %v", op, snapRange(x), snapRange(y)), set: true}
+						for _, zp := range z {
+							for _, opnd := range []*big.Int{x[0], x[1], y[0], y[1]} {
+								if zp != nil && zp == opnd {
+									alias = true
+								}
+							}
+						}
+					} else {
+						alias = aliasCheck(x, y, z)
+					}
 					z = zc
 				}
 				rows = append(rows, mkrow(z, ok, alias, untr))
@@ -401,6 +461,7 @@ func main() {
 		os.Exit(2)
 	}
 	f.Close()
-	st := map[string]interface{}{"rows": len(rows), "lifted_rows": lifted, "plain_vs_try_mismatch": plainMismatch, "universe": len(u)}
+	st := map[string]interface{}{"rows": len(rows), "lifted_rows": lifted, "plain_vs_try_mismatch": plainMismatch, "universe": len(u),
+		"kept_results_changed": histChanged, "results_sharing_storage_with_kept": histShared, "history_example": histExample}
 	json.NewEncoder(os.Stdout).Encode(st)
 }
